@@ -71,6 +71,20 @@ PINS = [
     ("autode/atoms.py", "AtomCollection.atoms"),
     ("autode/atoms.py", "Atom.__init__"),                                # label, atom_class
     ("autode/atoms.py", "Atom.atomic_number"),                           # Parser.mult electron count
+    # round 3: transitive dependencies of the observed clauses that nothing else protected
+    ("autode/smiles/parser.py", "atomic_charge"),                        # bracket-atom helpers: the parsed molecule is the model's input
+    ("autode/smiles/parser.py", "atomic_n_hydrogens"),
+    ("autode/smiles/parser.py", "atomic_class"),
+    ("autode/smiles/parser.py", "atomic_sterochem"),
+    ("autode/smiles/parser.py", "Parser._parse_sq_bracket"),
+    ("autode/smiles/parser.py", "Parser._set_implicit_hs"),
+    ("autode/smiles/parser.py", "Parser._set_double_bond_stereochem"),    # footprint of the known stereo-extra-atom deviation (reference())
+    ("autode/smiles/builder.py", "Builder._set_atom_types"),            # coordination > 8 -> NotImplementedError (build-failure class)
+    ("autode/mol_graphs.py", "MolecularGraph.expected_planar_geometry"),  # decides has_reasonable_coordinates
+    ("autode/conformers/conf_gen.py", "_get_coords_no_init_structure"),   # simanl fallback that delivers the coordinates after a failed build
+    ("autode/conformers/conf_gen.py", "_get_atoms_rotated_stereocentres"),
+    ("autode/conformers/conf_gen.py", "_add_dist_consts_for_stereocentres"),
+    ("autode/conformers/conf_gen.py", "_get_non_random_atoms"),
 ]
 
 SLICE = ["C02/Model.v", "C02/Lemmas.v", "C02/Props.v", "C02/Corr.v", "gen/C02_Gen.v"]
@@ -118,7 +132,35 @@ SPECIALS = [
     ("C[S@](=O)CC", ["tet-stereo", "lone-pair-centre"]),
     ("C[P@@](CC)c1ccccc1", ["tet-stereo", "lone-pair-centre", "aromatic"]),
     ("C[S@+](CC)CCC", ["tet-stereo", "lone-pair-centre", "charged"]),
-    # ---- thorough tier continues (quick takes the first 31) ----
+    # stereocentres on ring atoms (cis/trans ring centres), strings RDKit rejects (fallback inside init_organic_smiles),
+    # bracket atoms combining numeric charge / H count / class / stereo, three-digit class, [Kr], aromatic [se]
+    ("C[C@H]1CC[C@@H](C)CC1", ["tet-stereo", "ring-stereo"]),
+    ("C[C@H]1CCCC[C@@H]1C", ["tet-stereo", "ring-stereo"]),
+    ("CN(C)(C)(C)C", ["rdkit-rejects"]),
+    ("c1cccc1", ["rdkit-rejects", "aromatic", "radical"]),
+    ("F[Kr]F", ["rdkit-rejects", "metal-substring"]),
+    ("Cl[Fe+2:1]Cl", ["metal", "charged", "class", "bracket-combo"]),
+    ("[CH3:5][Zn+1:6]", ["metal", "charged", "class", "bracket-combo"]),
+    ("C[N+:3](C)(C)[C@H:12](F)Cl", ["charged", "class", "tet-stereo", "bracket-combo"]),
+    ("[CH3:123]C", ["class", "class-ge-100"]),
+    ("c1cc[se]c1", ["aromatic", "two-letter-aromatic"]),
+    ("Cl[Pd-2](Cl)(Cl)Cl", ["metal", "charged", "square-planar"]),
+    ("F[W](F)(F)(F)(F)(F)(F)F", ["metal", "metal-1letter", "coord-8"]),
+    # ---- thorough tier continues (quick takes the first 43) ----
+    ("C[C@H]1CC[C@H](C)CC1", ["tet-stereo", "ring-stereo"]), ("C[C@@H]1CC[C@@H](C)CC1", ["tet-stereo", "ring-stereo"]),
+    ("O[C@H]1CC[C@@H](O)CC1", ["tet-stereo", "ring-stereo"]), ("C[C@H]1C[C@@H](C)C1", ["tet-stereo", "ring-stereo"]),
+    ("C[C@@H]1CCC[C@H](C)C1", ["tet-stereo", "ring-stereo"]), ("F[C@H]1CC[C@@H](Cl)CC1", ["tet-stereo", "ring-stereo"]),
+    ("C1CC/C=C/C1", ["db-stereo", "nongenuine"]), ("F/C=C/1CCCC1", ["db-stereo", "nongenuine"]), ("C[S@](=O)C", ["tet-stereo", "nongenuine"]),
+    ("C[N+](C)(C)(C)C", ["rdkit-rejects", "charged"]), ("FC(F)(F)(F)F", ["rdkit-rejects"]), ("CC(C)(C)(C)(C)C", ["rdkit-rejects"]),
+    ("CO(C)O", ["rdkit-rejects"]), ("C1CCCCCCN1", ["ring8"]), ("C1CCCCCC[CH]1", ["ring8", "radical"]), ("[Kr]", ["single-atom", "metal-substring"]),
+    ("C1CCCCCC[N-1:2]1", ["ring8", "charged", "class", "bracket-combo"]), ("[Cu+2:9]", ["metal", "single-atom", "charged", "class", "bracket-combo"]),
+    ("[O-:4]C", ["charged", "class", "bracket-combo"]), ("[NH3+:2]C", ["charged", "class", "bracket-combo"]), ("C[Fe+3:12](C)C", ["metal", "charged", "class", "bracket-combo"]),
+    ("[F:3][Zr-5:4](F)(F)(F)(F)(F)(F)(F)[F:5]", ["metal", "charged", "class", "build-fails", "bracket-combo"]), ("[Br-:1]", ["single-atom", "charged", "class"]),
+    ("[OH-:7]", ["charged", "class", "bracket-combo"]), ("C[C@@H:8](N)[O-:9]", ["charged", "class", "tet-stereo", "bracket-combo"]), ("[Co+3:2](N)(N)N", ["metal", "charged", "class", "bracket-combo"]),
+    ("[CH3:100]C", ["class", "class-ge-100"]), ("[CH3:99]C", ["class"]), ("C[CH2:250]O", ["class", "class-ge-100"]), ("[CH3:0]C", ["class"]),
+    ("F[Re](F)(F)(F)(F)(F)F", ["metal", "coord-7"]), ("F[Xe](F)(F)F", ["square-planar"]),
+    ("Cl[Rh](C=O)(C=O)Cl", ["metal", "square-planar"]), ("F/C=C/[La](F)(F)(F)(F)(F)(F)(F)F", ["metal", "build-fails", "db-stereo"]),
+    ("C[C@H](F)[La](F)(F)(F)(F)(F)(F)(F)F", ["metal", "build-fails", "tet-stereo"]),
     ("C[S@@](=O)CC", ["tet-stereo", "lone-pair-centre"]), ("C[P@](CC)c1ccccc1", ["tet-stereo", "lone-pair-centre", "aromatic"]),
     ("C[S@@+](CC)CCC", ["tet-stereo", "lone-pair-centre", "charged"]), ("C[S@](=O)c1ccccc1", ["tet-stereo", "lone-pair-centre", "aromatic"]),
     ("C[S@@](=O)c1ccccc1", ["tet-stereo", "lone-pair-centre", "aromatic"]), ("C[P@](=O)(CC)c1ccccc1", ["tet-stereo"]),
@@ -150,7 +192,7 @@ SPECIALS = [
     ("[CH3:1]C(=O)[OH:2]", ["class"]), ("[CH2:7]=O", ["class"]), ("c1cc[cH:4]cc1", ["class", "aromatic"]),
     ("CS(=O)(=O)C", []), ("CP(C)C", []), ("C#N", []), ("CC#CC", []), ("[O-][N+](=O)c1ccccc1", ["charged", "aromatic"]), ("C[NH3+]", ["charged"]),
 ]
-N_QUICK_SPECIALS = 31
+N_QUICK_SPECIALS = 43
 
 TEMPLATES = [
     ("{R}C(=O)O", []), ("{R}C#N", []), ("{R}C(=O)N{S}", []), ("c1ccc({R})cc1", ["aromatic"]), ("{R}c1ccc({S})cc1", ["aromatic"]),
@@ -160,6 +202,8 @@ TEMPLATES = [
     ("{R}C(=O)[O-]", ["charged"]), ("{R}[NH2+]{S}", ["charged"]), ("{R}C1CCCCCCC1", ["ring8"]), ("{R}c1ccoc1", ["aromatic"]),
     ("{R}C1=CC=CC=C1", ["kekule"]), ("{R}C(C)=C{S}", []), ("{R}OC(=O){S}", []), ("{R}[Zn]{S}", ["metal"]), ("{R}S(=O)(=O){S}", []),
     ("{R}C1CC2CCC1C2", ["fused"]), ("{R}[Mo]$[Mo]{S}", ["metal", "quadruple"]), ("{R}[V]{S}", ["metal", "metal-1letter"]),
+    ("{R}[C@H]1CC[C@@H]({S})CC1", ["tet-stereo", "ring-stereo"]), ("{R}[C@H]1CC[C@H]({S})CC1", ["tet-stereo", "ring-stereo"]),
+    ("{R}N(C)(C)(C){S}", ["rdkit-rejects"]), ("{R}[Fe+2:4]{S}", ["metal", "charged", "class", "bracket-combo"]),
 ]
 SUBS = ["C", "CC", "O", "N", "F", "Cl", "Br", "C(C)C", "C=C", "C#C", "CO", "C(=O)C", "[CH3:1]", "[CH2:2]C", "C2CC2", "c2ccccc2", "CS", "CCC"]
 SUBS_T = ["C", "CC", "O", "N", "Br", "C=C", "[CH3:6]", "c2ccccc2"]       # keeps {T}[C@H](F)Cl a genuine centre
@@ -169,7 +213,7 @@ SUBS_U = ["CC", "O", "F", "Cl", "C=C", "c2ccccc2", "C(=O)O"]              # keep
 def gen_smiles(ctx):
     specials = SPECIALS[:N_QUICK_SPECIALS] if ctx.quick else SPECIALS
     out = [(s, list(t) + ["special"]) for s, t in specials]
-    n_random = 24 if ctx.quick else 260
+    n_random = 16 if ctx.quick else 260
     seen = {s for s, _ in out}
     tries = 0
     while len(out) < len(specials) + n_random and tries < 20 * n_random:
@@ -221,8 +265,40 @@ def bracket_is_metal(smiles, metals, sym2z):
     return False
 
 
+def substring_metal(smiles, metals):
+    """Molecule._init_smiles as written (text pinned by the translator): a metal symbol occurring ANYWHERE inside a
+    bracket, so `[Kr]` (contains K) also selects init_smiles.  Evaluated on the harness's own metal table."""
+    return any(m in b for m in metals for b in re.findall(r"\[.*?]", smiles))
+
+
+def atom_tokens(smiles):
+    """(position, text) of every atom token of the SMILES, in order (own tokenizer; None if a character is unknown)"""
+    out, i, n = [], 0, len(smiles)
+    while i < n:
+        c = smiles[i]
+        if c == "[":
+            j = smiles.find("]", i)
+            if j < 0:
+                return None
+            out.append((i, smiles[i:j + 1]))
+            i = j + 1
+        elif smiles[i:i + 2] in ("Cl", "Br"):
+            out.append((i, smiles[i:i + 2]))
+            i += 2
+        elif c in "BCNOPSFI" or c in AROMATIC:
+            out.append((i, c))
+            i += 1
+        elif c in "-=#$/\\()%0123456789":
+            i += 1
+        else:
+            return None
+    return out
+
+
 def reference(smiles):
-    """-> dict or None when RDKit cannot give a sanitized molecule."""
+    """What the SMILES denotes, by RDKit called here.  Uses the sanitized molecule where RDKit gives one and the
+    unsanitized parse (atoms, bonds, H counts by valence, marks as written) for strings RDKit rejects.
+    -> dict or None when RDKit cannot even parse the string."""
     from rdkit import Chem
     from rdkit import RDLogger
     RDLogger.DisableLog("rdApp.*")
@@ -233,27 +309,40 @@ def reference(smiles):
     p2.removeHs = False
     p2.sanitize = False
     raw = Chem.MolFromSmiles(smiles, p2)
-    if ref is None or raw is None or ref.GetNumAtoms() != raw.GetNumAtoms():
+    if raw is None:
         return None
+    sanitized = ref is not None and ref.GetNumAtoms() == raw.GetNumAtoms()
+    if not sanitized:
+        ref = Chem.Mol(raw)
+        ref.UpdatePropertyCache(strict=False)
     n = ref.GetNumAtoms()
+    toks = atom_tokens(smiles)
+    if toks is None or len(toks) != n:
+        return None
     z = [a.GetAtomicNum() for a in ref.GetAtoms()]
     nh = [a.GetTotalNumHs(includeNeighbors=False) for a in ref.GetAtoms()]
     charges = [a.GetFormalCharge() for a in ref.GetAtoms()]
-    classes = [a.GetAtomMapNum() if ":" in smiles and a.GetAtomMapNum() != 0 else None for a in ref.GetAtoms()]
+    # atom classes from the text (RDKit cannot tell ":0" from no class)
+    classes = []
+    for _, t in toks:
+        m = re.search(r":(\d+)\]$", t)
+        classes.append(int(m.group(1)) if m else None)
     lower = [a.GetIsAromatic() for a in raw.GetAtoms()]          # written in lower case
-    heavy_bonds, pi = [], set()
+    heavy_bonds, pi, ring_bond = [], set(), {}
     for rb, sb in zip(raw.GetBonds(), ref.GetBonds()):
         i, j = sorted((rb.GetBeginAtomIdx(), rb.GetEndAtomIdx()))
         assert (i, j) == tuple(sorted((sb.GetBeginAtomIdx(), sb.GetEndAtomIdx())))
         heavy_bonds.append((i, j))
+        ring_bond[(i, j)] = sb.IsInRing() if sanitized else None
         if lower[i] and lower[j]:
-            is_pi = sb.GetIsAromatic() or sb.GetBondType() != Chem.rdchem.BondType.SINGLE
+            is_pi = (sb.GetIsAromatic() or sb.GetBondType() != Chem.rdchem.BondType.SINGLE) if sanitized else rb.GetIsAromatic() \
+                or rb.GetBondType() not in (Chem.rdchem.BondType.SINGLE, Chem.rdchem.BondType.AROMATIC)
         else:
             is_pi = rb.GetBondType() not in (Chem.rdchem.BondType.SINGLE,)
         if is_pi:
             pi.add((i, j))
     perceived_pi = {tuple(sorted((b.GetBeginAtomIdx(), b.GetEndAtomIdx()))) for b in ref.GetBonds()
-                    if b.GetBondType() != Chem.rdchem.BondType.SINGLE}
+                    if b.GetBondType() != Chem.rdchem.BondType.SINGLE} if sanitized else set(pi)
     # hydrogens: one new atom per implicit/bracket H, appended in atom order
     edges = set(heavy_bonds)
     k = n
@@ -262,11 +351,7 @@ def reference(smiles):
             edges.add((i, k))
             k += 1
     atoms = z + [1] * (k - n)
-    # stereo: perceived (genuine) and specified (as written)
-    genuine = {i for i, _ in Chem.FindMolChiralCenters(ref)}
-    for b in ref.GetBonds():
-        if b.GetStereo() != Chem.rdchem.BondStereo.STEREONONE:
-            genuine |= {b.GetBeginAtomIdx(), b.GetEndAtomIdx()}
+    # stereo as written: @/@@ tags, and double bonds with a directional bond at both ends
     specified = {a.GetIdx() for a in raw.GetAtoms() if a.GetChiralTag() != Chem.rdchem.ChiralType.CHI_UNSPECIFIED}
     dirs = (Chem.rdchem.BondDir.ENDUPRIGHT, Chem.rdchem.BondDir.ENDDOWNRIGHT)
     for b in raw.GetBonds():
@@ -274,9 +359,43 @@ def reference(smiles):
             ends = (b.GetBeginAtom(), b.GetEndAtom())
             if all(any(nb.GetBondDir() in dirs for nb in a.GetBonds() if nb.GetIdx() != b.GetIdx()) for a in ends):
                 specified |= {a.GetIdx() for a in ends}
+    # which of them ARE stereochemistry: RDKit's new stereo perception (FindPotentialStereo), NOT the legacy
+    # FindMolChiralCenters / Bond.GetStereo calls init_organic_smiles itself makes
+    if sanitized:
+        genuine = set()
+        for si in Chem.FindPotentialStereo(ref):
+            if str(si.specified) != "Specified":
+                continue
+            if str(si.type) == "Atom_Tetrahedral":
+                genuine.add(si.centeredOn)
+            elif str(si.type) == "Bond_Double":
+                b = ref.GetBondWithIdx(si.centeredOn)
+                genuine |= {b.GetBeginAtomIdx(), b.GetEndAtomIdx()}
+        legacy = {i for i, _ in Chem.FindMolChiralCenters(ref)}
+        for b in ref.GetBonds():
+            if b.GetStereo() != Chem.rdchem.BondStereo.STEREONONE:
+                legacy |= {b.GetBeginAtomIdx(), b.GetEndAtomIdx()}
+    else:
+        genuine, legacy = set(specified), set(specified)
+    # footprint of the known parser defect (unbounded scans in _set_double_bond_stereochem): for a double bond written
+    # `=` before atom i, i is marked if ANY slash follows it in the string, its partner if ANY slash precedes it
+    scan = set()
+    if "/" in smiles or "\\" in smiles:
+        for rb in raw.GetBonds():
+            if rb.GetBondType() != Chem.rdchem.BondType.DOUBLE:
+                continue
+            a, b = sorted((rb.GetBeginAtomIdx(), rb.GetEndAtomIdx()))
+            pos = toks[b][0]
+            if pos == 0 or smiles[pos - 1] != "=":
+                continue                        # ring-closure double bonds are not scanned
+            if "/" in smiles[pos:] or "\\" in smiles[pos:]:
+                scan.add(b)
+            if "/" in smiles[:pos] or "\\" in smiles[:pos]:
+                scan.add(a)
     ne = sum(atoms) - sum(charges)
     return {"n_heavy": n, "atoms": atoms, "nh": nh, "charge": sum(charges), "mult": ne % 2 + 1, "edges": edges,
-            "pi": pi, "perceived_pi": perceived_pi, "genuine": genuine, "specified": specified | genuine,
+            "pi": pi, "perceived_pi": perceived_pi, "genuine": genuine, "specified": specified | genuine, "legacy": legacy,
+            "scan_footprint": scan, "ring_bond": ring_bond, "sanitized": sanitized,
             "classes": classes + [None] * (k - n), "lower": lower, "heavy_bonds": heavy_bonds,
             "n_rad": sum(a.GetNumRadicalElectrons() for a in ref.GetAtoms())}
 
@@ -371,11 +490,11 @@ def observe(mol, sym2z):
     return {"charge": int(mol.charge), "mult": int(mol.mult), "atoms": [sym2z[a.label] for a in mol.atoms],
             "atom_classes": [a.atom_class for a in mol.atoms],
             "nodes_ok": nodes == list(range(n)),
-            "node_z": [sym2z[g.nodes[i]["atom_label"]] for i in nodes],
+            "node_z": [sym2z.get(g.nodes[i].get("atom_label"), 0) for i in nodes],
             "classes": [g.nodes[i].get("atom_class") for i in nodes],
             "edges": sorted(tuple(sorted(e)) for e in g.edges),
             "pi": sorted(tuple(sorted(e)) for e in g.edges if g.edges[e]["pi"]),
-            "stereo": [i for i in nodes if g.nodes[i]["stereo"]],
+            "stereo": [i for i in nodes if g.nodes[i].get("stereo")],
             "fine": bool(mol.rdkit_conf_gen_is_fine), "rdobj": mol.rdkit_mol_obj is not None,
             "finite": finite, "min_dist": mind}
 
@@ -461,6 +580,30 @@ def site_of(path, r):
     return "init_smiles" if path == "builtin" else "init_organic_smiles"
 
 
+def explicit_h_renumbering(ref):
+    """RDKit (default removeHs) merges explicit [H] atoms into their neighbour and AddHs re-creates them after the heavy
+    atoms.  -> old index -> new index, or None when the string has no removable explicit H."""
+    n, z = ref["n_heavy"], ref["atoms"]
+    nbrs = {i: [] for i in range(n)}
+    for i, j in ref["heavy_bonds"]:
+        nbrs[i].append(j)
+        nbrs[j].append(i)
+    expl = [i for i in range(n) if z[i] == 1]
+    if not expl or any(len(nbrs[h]) != 1 or z[nbrs[h][0]] == 1 or ref["classes"][h] is not None for h in expl):
+        return None
+    keep = [i for i in range(n) if z[i] != 1]
+    new = {i: k for k, i in enumerate(keep)}
+    nxt, k, old_h = len(keep), n, {}
+    for i in range(n):
+        old_h[i] = list(range(k, k + ref["nh"][i]))
+        k += ref["nh"][i]
+    for i in keep:
+        for h in [h for h in sorted(nbrs[i]) if z[h] == 1] + old_h[i]:
+            new[h] = nxt
+            nxt += 1
+    return new
+
+
 def property_failures(smiles, tags, ref, path, r, is_metal):
     """-> list of (key, what).  ref = RDKit reference of what the SMILES denotes."""
     out = []
@@ -470,18 +613,45 @@ def property_failures(smiles, tags, ref, path, r, is_metal):
         return out
     o, site = r["obs"], site_of(path, r)
     rdkit_site = site == "init_organic_smiles"
-    has_explicit_h = any(z == 1 for z in ref["atoms"][:ref["n_heavy"]]) and ref["n_heavy"] > 1
 
     def add(cls, what):
         out.append((f"{site}|{cls}", what))
+    big = [c for c in ref["classes"] if c is not None and c >= 100]
+    if rdkit_site and big and len(o["atoms"]) < len(ref["atoms"]):
+        add("atom-class-ge-100-drops-atom", f"{len(o['atoms'])} atoms {o['atoms']} instead of {len(ref['atoms'])} and graph nodes {o['node_z']}: "
+            f"atoms_from_rdkit_mol skips the mol-block line of an atom whose class {big} has three digits (15 tokens instead of 16)")
+        return out
     if not o["nodes_ok"] or o["node_z"] != o["atoms"]:
         add("graph-nodes", f"graph nodes {o['node_z']} do not match atoms {o['atoms']}")
+    # expected numbering: SMILES order, or (known RDKit-path deviation) explicit [H] atoms re-created after the heavy atoms
+    want = {"atoms": ref["atoms"], "edges": ref["edges"], "pi": ref["pi"], "specified": ref["specified"], "genuine": ref["genuine"],
+            "legacy": ref["legacy"], "classes": ref["classes"], "scan": ref["scan_footprint"]}
+    defect_classes = None
     if o["atoms"] != ref["atoms"]:
-        if has_explicit_h and sorted(o["atoms"]) == sorted(ref["atoms"]):
-            add("explicit-H-atom-order", f"atoms {o['atoms']} are not in SMILES order {ref['atoms']} (explicit [H] atoms moved to the end)")
+        ren = explicit_h_renumbering(ref) if rdkit_site else None
+        moved = None
+        if ren is not None:
+            moved = [None] * len(ref["atoms"])
+            for old, nw in ren.items():
+                moved[nw] = ref["atoms"][old]
+        if moved is not None and o["atoms"] == moved:
+            add("explicit-H-atom-order", f"atoms {o['atoms']} are not in SMILES order {ref['atoms']} (explicit [H] atoms moved to the end; "
+                f"atom classes are then zipped onto the wrong atoms)")
+            mp = lambda ps: {tuple(sorted((ren[i], ren[j]))) for i, j in ps}      # noqa: E731
+            cl = [None] * len(moved)
+            for old, nw in ren.items():
+                cl[nw] = ref["classes"][old]
+            want = {"atoms": moved, "edges": mp(ref["edges"]), "pi": mp(ref["pi"]), "specified": {ren[i] for i in ref["specified"]},
+                    "genuine": {ren[i] for i in ref["genuine"]}, "legacy": {ren[i] for i in ref["legacy"]}, "classes": cl, "scan": set()}
+            # the class of SMILES atom k lands on molecule atom k (zip over parser.atoms): part of the same known deviation
+            defect_classes = [ref["classes"][k] if k < ref["n_heavy"] else None for k in range(len(moved))]
+        elif not rdkit_site and "[se" in smiles and len(o["atoms"]) == len(ref["atoms"]) and \
+                all(a == b or (a, b) == (16, 34) for a, b in zip(o["atoms"], ref["atoms"])):
+            add("atoms-aromatic-se-read-as-s", f"aromatic bracket atom [se] is built as sulfur: atoms {o['atoms']} but the SMILES denotes {ref['atoms']} "
+                f"(Parser._parse_sq_bracket takes 's' and ignores the 'e'); the RDKit path builds Se")
         else:
             add("atoms", f"atoms {o['atoms']} but the SMILES denotes {ref['atoms']} (heavy atoms in order, then one H per implicit hydrogen)")
-    atoms_ok = o["atoms"] == ref["atoms"]
+    atoms_ok = o["atoms"] == want["atoms"]
     # a forced RDKit path on a metal string is compared on the graph only; the constructor always in full
     check_cm = path == "ctor" or not (is_metal and rdkit_site)
     if check_cm and o["charge"] != ref["charge"]:
@@ -493,37 +663,48 @@ def property_failures(smiles, tags, ref, path, r, is_metal):
             add("mult", f"multiplicity {o['mult']} but the electron count gives {ref['mult']}")
     if atoms_ok:
         edges, pi, stereo = set(o["edges"]), set(o["pi"]), set(o["stereo"])
-        if edges != ref["edges"]:
-            add("edges", f"edges differ from the SMILES bonds: extra {sorted(edges - ref['edges'])}, missing {sorted(ref['edges'] - edges)}")
-        extra, missing = pi - ref["pi"], ref["pi"] - pi
+        if edges != want["edges"]:
+            add("edges", f"edges differ from the SMILES bonds: extra {sorted(edges - want['edges'])}, missing {sorted(want['edges'] - edges)}")
+        extra, missing = pi - want["pi"], want["pi"] - pi
         if extra:
             low = ref["lower"] + [False] * len(ref["atoms"])
-            if not rdkit_site and all(low[i] and low[j] for i, j in extra):
-                add("pi-aromatic-linker", f"single bond(s) {sorted(extra)} joining two aromatic rings marked pi (neither multiple nor aromatic in the SMILES)")
-            elif rdkit_site and extra <= ref["perceived_pi"]:
+            if not rdkit_site and all(low[i] and low[j] and ref["ring_bond"].get((i, j)) is False for i, j in extra):
+                add("pi-aromatic-linker", f"acyclic single bond(s) {sorted(extra)} joining two aromatic rings marked pi (neither multiple nor aromatic in the SMILES)")
+            elif rdkit_site and extra <= ref["perceived_pi"] and all(ref["ring_bond"].get(b) for b in extra):
                 add("pi-kekule-aromatised", f"bond(s) {sorted(extra)} written single in a Kekule ring marked pi (RDKit aromatises); the built-in path marks only the written double bonds")
             else:
                 add("pi-extra", f"bond(s) {sorted(extra)} marked pi but neither multiple nor aromatic in the SMILES")
         if missing:
             add("pi-missing", f"multiple/aromatic bond(s) {sorted(missing)} not marked pi (marked: {sorted(pi)})")
-        s_extra, s_missing = stereo - ref["specified"], ref["specified"] - stereo
+        s_extra, s_missing = stereo - want["specified"], want["specified"] - stereo
         if s_extra:
-            if not rdkit_site and ("/" in smiles or "\\" in smiles):
-                add("stereo-extra-atom", f"atom(s) {sorted(s_extra)} marked stereo without carrying stereochemistry (marked {sorted(stereo)}, SMILES specifies {sorted(ref['specified'])})")
+            # known parser deviation: EXACTLY the footprint of the unbounded double-bond scans, nothing else
+            if not rdkit_site and s_extra == want["scan"] - want["specified"]:
+                add("stereo-extra-atom", f"atom(s) {sorted(s_extra)} marked stereo without carrying stereochemistry (marked {sorted(stereo)}, SMILES specifies {sorted(want['specified'])}): "
+                    f"double-bond ends reached by the parser's unbounded '/' scan")
             else:
-                add("stereo-extra", f"atom(s) {sorted(s_extra)} marked stereo, SMILES specifies {sorted(ref['specified'])}")
+                add("stereo-extra", f"atom(s) {sorted(s_extra)} marked stereo, SMILES specifies {sorted(want['specified'])}"
+                    + (f" (the known parser scan deviation would give exactly {sorted(want['scan'] - want['specified'])})" if not rdkit_site and want["scan"] else ""))
         if s_missing:
-            if rdkit_site and s_missing <= (ref["specified"] - ref["genuine"]):
-                add("stereo-mark-not-a-stereocentre", f"specified stereo mark(s) on atom(s) {sorted(s_missing)} dropped (RDKit does not perceive a stereocentre there); the built-in path keeps them")
+            lost, dropped = s_missing & want["genuine"], s_missing - want["genuine"]
+            if rdkit_site and dropped:
+                add("stereo-mark-not-a-stereocentre", f"specified stereo mark(s) on atom(s) {sorted(dropped)} dropped (not a stereocentre by RDKit's stereo perception, "
+                    f"FindPotentialStereo); the built-in path keeps them")
+            elif dropped:
+                add("stereo-missing", f"atom(s) {sorted(dropped)} carry a specified stereo mark but are not marked (marked: {sorted(stereo)})")
+            if lost:
+                if rdkit_site and not (lost & want["legacy"]):
+                    add("stereo-centre-missed-by-legacy-perception", f"atom(s) {sorted(lost)} ARE specified stereocentres (Chem.FindPotentialStereo; e.g. cis/trans ring centres) "
+                        f"but are not marked: the legacy FindMolChiralCenters(rdkit_mol) does not report them; the built-in path marks them")
+                else:
+                    add("stereo-missing", f"atom(s) {sorted(lost)} carry specified stereochemistry but are not marked (marked: {sorted(stereo)})")
+        if o["classes"] != want["classes"]:
+            if defect_classes is not None and o["classes"] == defect_classes:
+                pass        # reported above under explicit-H-atom-order
+            elif not rdkit_site and not r["build_ok"] and all(c is None for c in o["classes"]):
+                add("class-lost-on-build-failure", f"atom classes {want['classes']} lost (graph has {o['classes']}): Builder.build failed and canonical_atoms_at_origin drops atom_class")
             else:
-                add("stereo-missing", f"atom(s) {sorted(s_missing)} carry specified stereochemistry but are not marked (marked: {sorted(stereo)})")
-        if o["classes"] != ref["classes"]:
-            if not rdkit_site and not r["build_ok"]:
-                add("class-lost-on-build-failure", f"atom classes {ref['classes']} lost (graph has {o['classes']}): Builder.build failed and canonical_atoms_at_origin drops atom_class")
-            else:
-                add("classes", f"node atom classes {o['classes']} but the SMILES gives {ref['classes']}")
-    elif has_explicit_h and o["classes"] != ref["classes"] and any(c is not None for c in ref["classes"]):
-        pass   # already reported as explicit-H-atom-order (classes land on the wrong atoms)
+                add("classes", f"node atom classes {o['classes']} but the SMILES gives {want['classes']}")
     if o["atom_classes"] != o["classes"]:
         add("atom-vs-node-class", f"Atom.atom_class {o['atom_classes']} differs from the graph's {o['classes']}")
     if not o["finite"] or (o["min_dist"] is not None and not o["min_dist"] > 1e-6):
@@ -558,7 +739,7 @@ def collect(job):
     except Exception as e:  # noqa
         return {"smiles": smiles, "tags": tags, "skip": f"parser-{type(e).__name__}"}
     rd = rdkit_oracle(smiles)
-    is_metal = bracket_is_metal(smiles, metals, sym2z)
+    is_metal = substring_metal(smiles, metals)       # the selection predicate as Molecule._init_smiles states it
     runs = {}
     for path in ("builtin", "organic", "ctor"):
         if path == "organic" and not pa["set_atoms_bonds_ok"]:
@@ -569,6 +750,7 @@ def collect(job):
         for charge, mult in explicit_args(ref):
             variants.append((charge, mult, run_path(smiles, "ctor", sym2z, charge=charge, mult=mult)))
     return {"smiles": smiles, "tags": tags, "skip": None, "ref": ref, "pa": pa, "rd": rd, "is_metal": is_metal,
+            "true_metal": bracket_is_metal(smiles, metals, sym2z),
             "runs": runs, "variants": variants}
 
 
@@ -581,6 +763,10 @@ def account(ctx, data, terms, descr, found):
     ref, pa, rd, is_metal, runs = data["ref"], data["pa"], data["rd"], data["is_metal"], data["runs"]
     for t in tags:
         ctx.hist("generator", t)
+    if not ref["sanitized"]:
+        ctx.hist("generator", "rdkit-rejects (reference from the unsanitized parse)")
+    if data["is_metal"] != data["true_metal"]:
+        ctx.hist("generator", "bracket contains a metal symbol only as a substring (e.g. [Kr]): init_smiles selected")
     ctx.hist("generator", f"atoms:{min(len(ref['atoms']) // 8 * 8, 40)}+")
     mine = []
     nontrivial = len(ref["atoms"]) > 1
@@ -632,6 +818,12 @@ def account(ctx, data, terms, descr, found):
     def inputs_for(r):
         unreasonable = bool(r["obs"] is not None and r["trace"] and r["trace"][-1] == "organic" and not r["obs"]["fine"])
         return coq_inputs(pa, ref, rd, r["build_ok"], unreasonable)
+    dropped = [p for p, r in runs.items() if any(k.endswith("|atom-class-ge-100-drops-atom") for k in mine)
+               and r["trace"] and r["trace"][-1] == "organic"]
+    if dropped:
+        ctx.hist("model-vs-impl", "skipped: RDKit-path terms of an atom-class>=100 string (model takes RDKit's atom list, not the mol block)")
+        runs = {p: r for p, r in runs.items() if p not in dropped}
+    c = runs.get("ctor")
     for path, fn in (("builtin", "check_builtin"), ("organic", "check_organic")):
         if path in runs:
             r = runs[path]
@@ -769,7 +961,7 @@ def replay(ctx, obj):
     nfail = 0
     for path in ([rep["path"]] if rep.get("path") in ("builtin", "organic", "ctor") else ["builtin", "organic", "ctor"]):
         r = run_path(smiles, path, sym2z, charge=rep.get("charge"), mult=rep.get("mult"))
-        fails = property_failures(smiles, [], ref, path, r, bracket_is_metal(smiles, metals, sym2z)) if ref else []
+        fails = property_failures(smiles, [], ref, path, r, substring_metal(smiles, metals)) if ref else []
         print(f"replay {smiles!r} path={path}: outcome={r['outcome']} trace={r['trace']} obs={r['obs']}")
         for key, what in fails:
             nfail += 1
